@@ -17,7 +17,7 @@ assert sh(f"git -C /repo apply {wt}/patch.diff").returncode == 0
 try:
     out = sh("cd /verif && HSA_NO_CANARY=1 /venv/bin/python -m hsa check all", timeout=900).stdout
 finally:
-    sh("git -C /repo checkout -- .")
+    sh("git -C /repo checkout -- . && git -C /repo clean -fdq src")
 sh("cd /verif && git checkout -- evidence 2>/dev/null; rm -f /verif/evidence/*.findings.json")
 viol = sorted(set(re.findall(r"VIOLATION property=(C\d+)", out)))
 errs = sorted(set(re.findall(r"ANALYSIS-ERROR property=(C\d+)", out)))
